@@ -593,6 +593,12 @@ func isBenign(err error) bool {
 func genC13(seed uint64, tier string) Plan {
 	p, g := genPoolPlan(seed, "C13", false)
 	p.X["long_ticks"] = 0
+	// the pool iterates over a map with one entry per request of a batch when it fails
+	// outstanding calls; iteration order is deterministic in simulation only for maps of
+	// at most 8 entries (see cmd/mkoverlay), so batches are kept that small here
+	if p.X["batch_size"] > 8 {
+		p.X["batch_size"] = 8
+	}
 	total := 0
 	for _, prog := range p.Progs {
 		for _, op := range prog {
